@@ -41,6 +41,9 @@ fn main() {
                 "C06" => gens::gen_c06(&mut g, tier),
                 "C07" => gens::gen_c07(&mut g, tier),
                 "C08" => gens::gen_c08(&mut g, tier),
+                "C09" => gens::gen_c09(&mut g, tier),
+                "C10" => gens::gen_c10(&mut g, tier),
+                "C15" => gens::gen_c15(&mut g, tier),
                 _ => {
                     eprintln!("unknown property {}", prop);
                     std::process::exit(2);
